@@ -47,6 +47,8 @@ def run(check: Check):
   c08._cursors(check, 'R-STREAM.cursor')
   # within a round no client repeats: the ids the sampler draws from are distinct
   c08.subset_ids_are_a_set(check, 'R-CHOICE.distinct')
+  # reading a stream of clients leaves the dataset as it was (an id list shuffled in place changes every later stream and cohort)
+  c08.view_purity(check, c08.federated_impls(repo), 'R-STREAM.pure', only={'shuffled_clients', 'clients', 'get_clients', 'client_ids'})
   ka = KeyAnalysis(repo)
   for ci in (get, shf):
     check_function(check, ka, ci.method('sample'), 'R-KEY', step_like=False)
